@@ -163,6 +163,15 @@ func (fv *FuncVerifier) execStmt(st *State, s ast.Stmt) {
 		fv.execDefer(st, s)
 	case *ast.EmptyStmt:
 	case *ast.GoStmt:
+		if v, ok := st.ghost["gostarted"]; ok {
+			// ghost counter of goroutines started (when a sidecar declares it); the goroutine itself is not run
+			st.ghost["gostarted"] = Val{T: "(+ " + v.T + " 1)", Sort: "Int"}
+			for _, a := range s.Call.Args {
+				fv.eval(st, a)
+			}
+			fv.note("go statement: counted (ghost gostarted), its body runs elsewhere: " + fv.exprText(s.Call.Fun))
+			break
+		}
 		fv.unsupported("go statement")
 		fv.note("go statement dropped: " + fv.exprText(s.Call.Fun))
 		hs := map[string]bool{}
@@ -684,6 +693,12 @@ func (fv *FuncVerifier) execDefer(st *State, s *ast.DeferStmt) {
 
 // doReturn handles return (results may be nil for bare return).
 func (fv *FuncVerifier) doReturn(st *State, fr *frameCtx, results []ast.Expr, at ast.Node) {
+	_, isRetStmt := at.(*ast.ReturnStmt)
+	if fv.contract != nil && fv.contract.Flags["noreturn"] != "" && len(fv.frames) <= 1 && !st.dead && (isRetStmt || fv.contract.Region == "") {
+		// "flag noreturn": the function (a service loop, or the region of one) must never return: every reachable
+		// return is a failed obligation (kind never-returns: reported even though no such obligation existed before)
+		fv.oblige(st, "never-returns", "the function returns", "false")
+	}
 	rts := resultTypes(fr.sig)
 	var vals []Val
 	if len(results) == 1 && len(rts) > 1 {
